@@ -59,7 +59,9 @@ func RouteUDP(bindFunc func() (*net.UDPConn, error), streamTimeout time.Duration
 
 			proxyAddr := addr
 			go func(stream *mux.Stream, localConn *net.UDPConn) {
-				buf := make([]byte, 8192)
+				// as large as the entry buffer below: whatever the peer's stream.Write accepted as one datagram
+				// must fit, a Read with a buffer too small for the next datagram fails and ends the stream
+				buf := make([]byte, 65536)
 				for {
 					n, err := stream.Read(buf)
 					if err != nil {
